@@ -7,4 +7,5 @@ CONSTANTS
   Pats = {}
   Coefs = {}
   Shifts = {}
+  Scales = {}
 CHECK_DEADLOCK FALSE
